@@ -55,6 +55,24 @@ def script_operator_pairs(kind, rng, nv=4):
             ops.append(f"{o1} h{k} h{a} h{b}"); k += 1
             ops.append(f"{o2} h{k} h{a} h{b}"); k += 1
     ops.append("SNAP")
+    # cache keys with NUMERIC operands: the substitution id (bdd, bcdd) resp. the variable number (zbdd
+    # subset0/subset1/change) is part of the key; the same function is put through several substitution
+    # objects / variables back to back, with ids that are congruent modulo small bucket counts
+    if kind in ("bdd", "bcdd"):
+        nsub = 34
+        for i in range(nsub):
+            vs = rng.sample(range(nv), rng.randrange(1, 3))
+            ops.append(f"MKSUBST {i} " + " ".join(f"{v}=h{rng.randrange(pool)}" for v in vs))
+        for f in rng.sample(range(pool), 4):
+            for sid in (0, 1, 2, 16, 17, 32, 33, 0, 16):
+                ops.append(f"SUBST h{k} h{f} {sid}"); k += 1
+        ops.append("SNAP")
+    elif kind == "zbdd":
+        for f in rng.sample(range(pool), 4):
+            for o in ("SUBSET0", "SUBSET1", "CHANGE"):
+                for v in list(range(nv)) + [0]:
+                    ops.append(f"{o} h{k} h{f} {v}"); k += 1
+        ops.append("SNAP")
     if kind != "mtbdd":
         # memoised results across add_vars: operations whose results / operands include the constant
         # true function (for ZBDDs the top of the tautology chain, which add_vars rebuilds) are issued,
